@@ -323,7 +323,7 @@ def main():
         f.write('\n'.join(h) + '\n')
     c = ['/* generated by gen.py - do not edit */', '#include "rows_gen.h"']
     for fm, fl_meta, has_init, has_l, has_linit, has_pl in fmts_meta:
-        c.append('static const RowField f_%s[] = {' % fm['name'])
+        c.append('static RowField f_%s[] = {' % fm['name'])   # not const: the self-test plants a wrong row
         for f, hasg, hass, gn, sn in fl_meta:
             c.append('  {"%s", %d, %d, %d, %d, "%s", "%s"},' % (f['name'], f['off'], f['w'], hasg, hass, gn, sn))
         c.append('};')
